@@ -284,7 +284,9 @@ func (f *File) Seek(offset int64, whence int) (int64, error) {
 	case io.SeekCurrent:
 		abs += offset
 	case io.SeekEnd:
+		f.fileData.Lock()
 		abs = int64(len(f.fileData.data)) + offset
+		f.fileData.Unlock()
 	}
 	if abs < 0 {
 		return 0, &os.PathError{Op: "seek", Path: f.fileData.name, Err: os.ErrInvalid}
